@@ -20,20 +20,25 @@ Ltac kill := repeat rewrite ?andb_false_r, ?andb_false_l; reflexivity.
 
 (* a consistent option set is accepted *)
 Theorem validate_accepts o :
+  0 < v_dt_init o -> 1 <= v_save_every o ->
   v_dt_init o <= v_dt_max o ->
   (forall p, v_terminal_psi o = Some p -> Qabs p <= 1) ->
   0 < v_mult o -> v_mult o < 1 -> 0 < v_drag o -> v_drag o <= 1 -> 0 < v_size o -> 0 < v_tol o ->
   validate_ok o = true.
 Proof.
-  intros A B C1 C2 D1 D2 E F. unfold validate_ok.
-  apply Qle_bool_iff in A. apply Qltb_true in C1, C2, D1, E, F. apply Qle_bool_iff in D2.
-  rewrite A, C1, C2, D1, D2, E, F.
+  intros P0 S1 A B C1 C2 D1 D2 E F. unfold validate_ok.
+  apply Qle_bool_iff in A. apply Qltb_true in P0, C1, C2, D1, E, F. apply Qle_bool_iff in D2, S1.
+  rewrite P0, S1, A, C1, C2, D1, D2, E, F.
   destruct (v_terminal_psi o) as [p|]; [|reflexivity].
   specialize (B p eq_refl). apply Qle_bool_iff in B. rewrite B.
   pose proof (Qabs_nonneg p) as N. apply Qle_bool_iff in N. rewrite N. reflexivity.
 Qed.
 
 (* each class of inconsistent option is rejected *)
+Theorem reject_dt_nonpositive o : v_dt_init o <= 0 -> validate_ok o = false.
+Proof. intros H. unfold validate_ok. rewrite (Qltb_false _ _ H). kill. Qed.
+Theorem reject_save_every o : v_save_every o < 1 -> validate_ok o = false.
+Proof. intros H. unfold validate_ok. rewrite (Qle_bool_false _ _ H). kill. Qed.
 Theorem reject_dt o : v_dt_max o < v_dt_init o -> validate_ok o = false.
 Proof. intros H. unfold validate_ok. rewrite (Qle_bool_false _ _ H). kill. Qed.
 Theorem reject_terminal_psi o p : v_terminal_psi o = Some p -> 1 < Qabs p -> validate_ok o = false.
@@ -126,8 +131,16 @@ Proof.
   intros Hin Hbad. unfold accepts_td, sample_times.
   destruct (forallb _ _) eqn:E; [|reflexivity].
   rewrite forallb_forall in E. specialize (E (u * sample_tmax repaired solve skip)).
-  rewrite Hbad in E. symmetry. apply E. apply in_map_iff. exists u. split; [reflexivity|exact Hin].
+  rewrite Hbad in E. symmetry. apply E. apply in_or_app. right. apply in_map_iff. exists u. split; [reflexivity|exact Hin].
 Qed.
+
+(* an imbalance at the start of a stage (t = 0, always evaluated by the solver) or at the end of the range is rejected *)
+Theorem td_start_imbalance_rejected f solve skip us :
+  accepts_currents (f 0) = false -> accepts_td f (sample_times true solve skip us) = false.
+Proof. intros Hbad. unfold accepts_td, sample_times. cbn [app forallb]. rewrite Hbad. reflexivity. Qed.
+Theorem td_end_imbalance_rejected f solve skip us :
+  accepts_currents (f (sample_tmax true solve skip)) = false -> accepts_td f (sample_times true solve skip us) = false.
+Proof. intros Hbad. unfold accepts_td, sample_times. cbn [app forallb]. rewrite Hbad. apply andb_false_r. Qed.
 
 (* as found (samples in [0, solve_time] only): a time the thermalisation stage uses lies outside the sampled range *)
 Theorem sampled_range_as_found_refuted :
